@@ -402,6 +402,9 @@ func nativeReplayOpt(dir, harness string, paths []string, race bool) (map[string
 		return nil, "native replay did not run: " + lastLines(string(b), 12)
 	}
 	if race {
+		if f := os.Getenv("VERIF_RACE_LOG"); f != "" {
+			os.WriteFile(f, b, 0o644)
+		}
 		reps := raceReports(string(b))
 		for k, o := range res {
 			o.races = reps
